@@ -192,7 +192,8 @@ def arc_length_3point(p_start: NPPointType, p_btw: NPPointType, p_end: NPPointTy
     radius = rad_end
 
     # Determine the angle
-    angle = np.arccos((rad_start.dot(rad_end)) / (mag1 * mag3))
+    # the quotient can leave [-1, 1] by a rounding error (half circles)
+    angle = np.arccos(np.clip((rad_start.dot(rad_end)) / (mag1 * mag3), -1, 1))
 
     # Check if the vectors define an exterior or an interior arcEdge
     if np.dot(np.cross(rad_start, rad_btw), np.cross(rad_start, rad_end)) < 0:
